@@ -6,10 +6,11 @@ ASSUME = [
     "TLA+ HttpMap!Expect is the decision table of the request side: the first LISTED source that has a value; otherwise body fallback / zero filling / absence / missing-field error by requiredness and options",
     "requests are real net/http requests wrapped by the repository's http.NewHTTPRequestFromStdReq; each source holds a different value so that the decoded Thrift struct tells where the field's value came from",
     "rows the property leaves open (a JSON body that also has a member named like the field while no listed source has a value, fallback without such a member) are unspecified: only a panic is reported",
+    "conversion by field type (TLA+ HttpVal!Expect): the specification starts from the abstract value (boundary integers of each width, finite doubles by class, short strings, lists of 1..3 elements) and the harness spells it as text with strconv (decimal, shortest float text, true/false, comma-joined lists); out-of-range integers are outside the domain (the implementation wraps silently); cookie and header delivery of arbitrary bytes is limited to what net/http transports unchanged",
     "response side: api.header / api.cookie / api.http_code fields of scalar types; the JSON body must keep the other fields and omit the mapped one",
 ]
 RULE = ("cases = every state of MC_HttpMap (annotation lists of length 1..2 over query/path/header/cookie/form/body, every consistent request, requiredness, field type i32/string, "
-        "ReadHttpValueFallback and the write options where they matter; TLC checks the table's laws) run through j2t with EnableHttpMapping; response-side rows for header/cookie/http_code; judged by TLC (Trace_HttpMap)")
+        "ReadHttpValueFallback and the write options where they matter; TLC checks the table's laws) run through j2t with EnableHttpMapping; every state of MC_HttpVal (9 field types x boundary values x 5 sources; quick: every 2nd) delivered as text and compared with the specified Thrift encoding; response-side rows for header/cookie/http_code; judged by TLC (Trace_HttpMap)")
 
 
 def run(R):
@@ -22,9 +23,19 @@ def run(R):
     with open(cf, "w") as f:
         for c in cases:
             f.write(json.dumps(dict(anns=c["anns"], have=sorted(c["have"]), body=c["body"], req=c["req"], o=c["o"], ty=c["ty"], lvl=c["lvl"])) + "\n")
+    # second table: conversion by field type (HttpVal): every (type, boundary value, source)
+    mv = R.model_check("MC_HttpVal", "MC_HttpVal.cfg", timeout=3000, workers=8)
+    hv = [r for r in mv["records"] if r.get("tag") == "case"]
+    mv["records"] = None
+    if R.tier == "quick":
+        hv = hv[R.seed % 2::2]
+    with open(cf, "a") as f:
+        for c in hv:
+            f.write(json.dumps(dict(kind="hv", ty=c["ty"], v=c["v"], src=c["src"])) + "\n")
+    R.extra_cov["tlc_conversion_rows_replayed"] = len(hv)
     tr = os.path.join(R.scratch, "c17.ndjson")
     R.drive("c17", "out=" + tr, "cases=" + cf, "responses=1", timeout=3000)
-    R.validate("Trace_HttpMap", tr, reset_events=("HM", "HR", "HMMany"), timeout=3000)
+    R.validate("Trace_HttpMap", tr, reset_events=("HM", "HR", "HMMany", "HV"), timeout=3000)
     R.extra_cov["tlc_rows_replayed"] = len(cases)
     return vlib.finish(R, "model_checking", RULE, ASSUME)
 
@@ -36,5 +47,5 @@ def replay(R, path):
         f.write(json.dumps(rec["case"]) + "\n")
     tr = os.path.join(R.scratch, "replay-out.ndjson")
     R.drive("c17", "out=" + tr, "cases=" + cf)
-    R.validate("Trace_HttpMap", tr, reset_events=("HM", "HR", "HMMany"), batches=1)
+    R.validate("Trace_HttpMap", tr, reset_events=("HM", "HR", "HMMany", "HV"), batches=1)
     return vlib.finish(R, "model_checking", RULE, ASSUME)
